@@ -6,7 +6,7 @@ int id = -1;
 #define L "/c08/log"
 #define GONE (!objectp(this_object()))
 
-// kinds: 1 create, 2 init, 3 move_or_destruct, 4 verb function, 5 heart_beat, 6 call_out callback
+// kinds: 1 create, 2 init, 3 move_or_destruct, 4 verb function, 5 heart_beat, 6 call_out callback, 7 id(), 8 poke(), 9 catch_tell()
 int hookpoint(int kind) { return sc; }
 
 // what a careless object does after it has been destructed in the middle of one of its own functions:
@@ -53,7 +53,11 @@ int verb(string arg) {
 void heart_beat() { int s = hookpoint(5); L->add(({ "hb", id })); L->script(id, 5, s); if (GONE) battery(); }
 void co() { int s = hookpoint(6); L->add(({ "co", id })); L->script(id, 6, s); if (GONE) battery(); }
 
-void raw_move(object dest) { move_object(dest); if (GONE) battery(); }
+int ping() { return 1; }
+int poke(int x) { hookpoint(8); return 1; }
+void catch_tell(string msg) { hookpoint(9); }
+int id(string str) { int s = hookpoint(7); L->add(({ "id", id })); L->script(id, 7, s); if (GONE) battery(); return 0; }
+void raw_move(mixed dest) { move_object(dest); if (GONE) battery(); }
 void raw_living(string n) { enable_commands(); set_living_name(n); }
 void raw_hb() { set_heart_beat(1); }
 void raw_timers() { set_heart_beat(1); call_out("co", 1); }
